@@ -1,0 +1,11 @@
+//go:build verif
+
+package decode
+
+// Exports for the verification harness in /verif. Compiled only with the
+// "verif" build tag; adds no behaviour to the package.
+
+func VerifDecodeNatural(b []byte) (uint32, int)     { return buffer(b).decodeNatural() }
+func VerifDecodeReal(b []byte) (float32, int)       { return buffer(b).decodeReal() }
+func VerifDecodeCoordinate(b []byte) (float32, int) { return buffer(b).decodeCoordinate() }
+func VerifDecodeZeroToOne(b []byte) (float32, int)  { return buffer(b).decodeZeroToOne() }
